@@ -136,20 +136,36 @@ namespace
 
     // ------------------------------------------------------------------ TSD<int, TS<int>>
     // ops: 1 set k v | 2 erase k | 3 clear | 4 reserve c | 5 touch | 6 create k (at(k), child left alone)
-    Line tsd_apply(TSDDataMutationView &m, const std::vector<Op> &ops)
+    //      7 write k v: the element of a LIVE key is written through ITS OWN output view (a read-only look-up of the
+    //        element followed by child.begin_mutation(t).copy_value_from(v)) - no dictionary-level operation; this is how
+    //        nested-graph outputs and map_ children write.  The dictionary only learns of it through record_child_modified.
+    // The dictionary's mutation view is opened lazily, at the first dictionary-level operation of the cycle, so that a
+    // child write can really be the first thing that reaches the storage in a cycle.
+    Line tsd_apply(const TSDOutputView &d, DateTime t, const std::vector<Op> &ops)
     {
         Line res{19};
+        std::optional<TSDDataMutationView> mv;
+        auto m = [&]() -> TSDDataMutationView & { if (!mv) { mv.emplace(d.begin_mutation(t)); } return *mv; };
         for (const Op &op : ops)
         {
             I64 r = 0;
             switch (op.code)
             {
-                case 1: { Value k{mk(op.a)}; Value v{mk(op.b)}; m.set(k.view(), v.view()); break; }
-                case 2: { Value k{mk(op.a)}; r = m.erase(k.view()); break; }
-                case 3: m.clear(); break;
-                case 4: m.reserve((std::size_t)op.a); break;
-                case 5: m.touch(); break;
-                case 6: { Value k{mk(op.a)}; auto ch = m.at(k.view()); r = (I64)ch.child_id(); break; }
+                case 1: { Value k{mk(op.a)}; Value v{mk(op.b)}; m().set(k.view(), v.view()); break; }
+                case 2: { Value k{mk(op.a)}; r = m().erase(k.view()); break; }
+                case 3: m().clear(); break;
+                case 4: m().reserve((std::size_t)op.a); break;
+                case 5: m().touch(); break;
+                case 6: { Value k{mk(op.a)}; auto ch = m().at(k.view()); r = (I64)ch.child_id(); break; }
+                case 7:
+                {
+                    Value k{mk(op.a)}; Value v{mk(op.b)};
+                    if (!d.contains(k.view())) { r = -2; break; }
+                    auto child = d.at(k.view());
+                    auto cm    = child.begin_mutation(t);
+                    static_cast<void>(cm.copy_value_from(v.view()));
+                    break;
+                }
                 default: r = -1; break;
             }
             res.push_back(r);
@@ -441,8 +457,7 @@ namespace
                 {
                     auto view = output.view(t);
                     auto d    = view.as_dict();
-                    auto m    = d.begin_mutation(t);
-                    out.line(tsd_apply(m, cy.ops));
+                    out.line(tsd_apply(d, t, cy.ops));
                 }
                 else { out.line({19}); }
                 auto view = output.view(t);
@@ -556,7 +571,7 @@ namespace
                     {
                         auto view = v.output(now);
                         if (sc.kind == 1) { auto x = view.as_set(); auto m = x.begin_mutation(now); pc->out->line(tss_apply(m, cy.ops)); }
-                        else if (sc.kind == 2) { auto x = view.as_dict(); auto m = x.begin_mutation(now); pc->out->line(tsd_apply(m, cy.ops)); }
+                        else if (sc.kind == 2) { auto x = view.as_dict(); pc->out->line(tsd_apply(x, now, cy.ops)); }
                         else if (sc.kind == 3) { auto x = view.as_window(); auto m = x.begin_mutation(now); pc->out->line(tsw_apply(m, cy.ops)); }
                         else if (sc.kind == 4) { auto x = view.as_dict(); auto m = x.begin_mutation(now); pc->out->line(tsdn_apply(m, now, cy.ops)); }
                         else if (sc.kind == 7) { auto x = view.as_bundle(); pc->out->line(fixed_apply(x, now, cy.ops)); }
